@@ -821,3 +821,73 @@ Section WholeKernels.
     unfold xvolume. rewrite E. f_equal. apply Forall2_eq. eapply Forall2_impl; [|exact HF]. intros. apply Forall2_eq. assumption.
   Qed.
 End WholeKernels.
+
+(* ------------------------------------------------------------------ the headline theorems on the generated kernels *)
+
+Lemma xeq_fin_r a q : xeq a (XFin q) -> exists r, a = XFin r /\ (r == q)%Q.
+Proof. destruct a; simpl; intro H; try contradiction. eauto. Qed.
+
+Lemma gen_ambiguity_def mn mx etas c : ~ (mn == mx)%Q ->
+  exists r, gamb_pixel mn mx etas c = Some (XFin r) /\
+    match nanmin c with
+    | Some m => is_best_min c m /\ (r == inject_Z (spec_amb (norm mn mx m) etas (ncurve mn mx c)))%Q
+    | None => (forall x, ~ In (Some x) c) /\ (r == inject_Z (Z.of_nat (length etas) * Z.of_nat (length c)))%Q
+    end.
+Proof.
+  intro Hs. destruct (gen_amb_pixel_eq mn mx etas c Hs) as (r0 & E & X).
+  apply xeq_fin_r in X. destruct X as (r & -> & Hr). exists r. split; [exact E|].
+  pose proof (ambiguity_def mn mx etas c) as D. destruct (nanmin c); destruct D as [D1 D2]; (split; [exact D1|]);
+    rewrite Hr, D2; reflexivity.
+Qed.
+
+Lemma gen_risk_order mn mx etas c : ~ (mn == mx)%Q ->
+  exists a b, grisk_pixel mn mx etas c = Some (a, b) /\
+    match a, b with
+    | XFin rmax, XFin rmin => (0 <= rmin /\ rmin <= rmax)%Q
+    | XNaN, XNaN => True
+    | _, _ => False
+    end.
+Proof.
+  intro Hs. destruct (gen_risk_pixel_eq mn mx etas c Hs) as (a & b & E & Xa & Xb). exists a, b. split; [exact E|].
+  pose proof (risk_order mn mx etas c) as O. destruct (risk_pixel mn mx etas c) as [[x|] [y|]]; cbn [fst snd of_oq] in *;
+    try contradiction.
+  - apply xeq_fin_r in Xa, Xb. destruct Xa as (ra & -> & Ha), Xb as (rb & -> & Hb). rewrite Ha, Hb. exact O.
+  - destruct a, b; simpl in Xa, Xb; try contradiction. exact I.
+Qed.
+
+Lemma gen_risk_finite mn mx etas c x : ~ (mn == mx)%Q ->
+  In (Some x) c -> etas <> [] -> Forall (fun e => 0 <= e)%Q etas ->
+  exists rmax rmin, grisk_pixel mn mx etas c = Some (XFin rmax, XFin rmin).
+Proof.
+  intros Hs Hin He Hpos. destruct (gen_risk_pixel_eq mn mx etas c Hs) as (a & b & E & Xa & Xb).
+  destruct (risk_finite mn mx etas c x Hin He Hpos) as (rmax & rmin & R). rewrite R in Xa, Xb. cbn [fst snd of_oq] in *.
+  apply xeq_fin_r in Xa, Xb. destruct Xa as (ra & -> & _), Xb as (rb & -> & _). eauto.
+Qed.
+
+Lemma gen_bounds_bracket_wta argsort mn mx is_min thr disps c w : argsort_ok argsort ->
+  (mn < mx)%Q -> (thr <= 1)%Q -> length disps = length c -> increasing disps ->
+  wta is_min c = Some w ->
+  exists dinf dw dsup,
+    gbounds_pixel argsort mn mx (type_factor is_min) thr disps c = Some (XFin dinf, XFin dsup)
+    /\ znth_error disps w = Some dw /\ (dinf <= dw)%Q /\ (dw <= dsup)%Q.
+Proof.
+  intros Hsort Hlt Hthr Hd Hinc Hw.
+  destruct (bounds_bracket_wta mn mx is_min thr disps c w Hlt Hthr Hd Hinc Hw) as (dinf & dw & dsup & B & Z & L1 & L2).
+  exists dinf, dw, dsup. repeat split; auto.
+  rewrite (gen_bounds_pixel_eq argsort mn mx (type_factor is_min) thr disps c Hsort) by
+      (auto; intro E; rewrite E in Hlt; apply (Qlt_irrefl _ Hlt)).
+  rewrite B. reflexivity.
+Qed.
+
+(* the contract asked of np.argsort is satisfiable: the identity permutation *)
+Definition argsort_id (v : vec) : ivec := np_arange (vlen v).
+Lemma argsort_id_ok : argsort_ok argsort_id.
+Proof.
+  intros v j. unfold argsort_id, np_arange, vlen. rewrite Nat2Z.id, in_map_iff. split.
+  - intros (k & <- & Hk). apply in_seq in Hk. lia.
+  - intro H. exists (Z.to_nat j). split; [lia|]. apply in_seq. lia.
+Qed.
+(* ... and by the reversed one (what a descending sort of an increasing curve would give) *)
+Definition argsort_rev (v : vec) : ivec := rev (np_arange (vlen v)).
+Lemma argsort_rev_ok : argsort_ok argsort_rev.
+Proof. intros v j. unfold argsort_rev. rewrite <- in_rev. apply argsort_id_ok. Qed.
